@@ -241,7 +241,8 @@ class Repo:
         from . import alpha
 
         self.renamed_back = alpha.undo_renames(self)
-        self.folded = alpha.fold_new_condition_temps(self)
+        # (not while the reference table itself is being regenerated: it must record the tree as written)
+        self.folded = [] if os.environ.get("VERIF_BUILDING_REFERENCE") else alpha.fold_new_condition_temps(self)
 
     def _abs_module(self, mod: Mod, level: int, target: Optional[str]) -> str:
         """Resolve a relative import to a package-relative module name."""
